@@ -1,5 +1,45 @@
-import TonVerif.Model.Cell
-import TonVerif.Spec.Cell
+/-
+C02 — exotic cells: level masks, per-level hashes/depths, constructibility, Merkle pruning invariance.
+
+`Model.Cell.info` is the executable mirror of the Python constructor (resolve_mask + calculate_hashes);
+`Spec/Cell.lean` is the TON rule written as recursion on the level.  Helper lemmas: Proofs/CellSpec.lean,
+Proofs/Prune.lean.  `H` (SHA-256) is an arbitrary function: no hash assumption is needed for C02.
+-/
+import TonVerif.Proofs.CellSpec
+
 namespace TonVerif.Properties.C02
-theorem placeholder : True := trivial
+open TonVerif TonVerif.Model TonVerif.Proofs.CellSpec
+
+/-- For every spec-valid tree — pruned branches of any mask 1..7, library cells, Merkle proofs and updates,
+any nesting — construction succeeds, and the level mask and the hash and depth reported at EVERY level
+equal the spec's. -/
+theorem c02_model_eq_spec (H : Bytes → Bytes) (c : Cell) (wf : TreeWF H c) :
+    ∃ i s, Cell.info H c = some i ∧ specInfo H c = some s ∧
+      i.mask = s.mask ∧ ∀ l, i.getHash l = some (s.hashAt l) ∧ i.getDepth l = some (s.depthAt l) := by
+  obtain ⟨i, s, hi, hs, hm, hl⟩ := tree_agrees H c wf
+  exact ⟨i, s, hi, hs, hm, hl⟩
+
+/-- Every spec-valid cell can be constructed (in particular pruned branches whose mask has gaps). -/
+theorem c02_constructible (H : Bytes → Bytes) (c : Cell) (wf : TreeWF H c) : Cell.info H c ≠ none := by
+  obtain ⟨i, _, hi, _⟩ := tree_agrees H c wf
+  simp [hi]
+
+/-- One node: a well-formed node over children that agree with their specs agrees with its spec. -/
+theorem c02_node (H : Bytes → Bytes) (k : Spec.Kind) (bits : Bits) (kis : List CellInfo) (kss : List Spec.SInfo)
+    (hk : AllAgree kis kss) (wf : NodeWF H k bits kss) :
+    ∃ i, construct H (kindCode k) bits kis = some i ∧ Agrees i (Spec.node H k bits kss) := by
+  obtain ⟨i, h1, h2, _⟩ := construct_agrees H k bits kis kss hk wf
+  exact ⟨i, h1, h2⟩
+
+/-! Non-vacuity: a pruned branch with the gap mask 0b110 (two stored hashes/depths, 560 data bits)
+is spec-valid, hence constructible — the case that the pinned code could not build (defect F2). -/
+def prunedMask6 : Cell := .mk 1 (bytesToBits ([1, 6] ++ List.replicate 68 0)) []
+
+example (H : Bytes → Bytes) : TreeWF H prunedMask6 := by
+  unfold prunedMask6 TreeWF
+  refine ⟨by simp [TreesWF], .pruned, [], by decide, by simp [specInfos], ?_⟩
+  refine ⟨by decide +kernel, by decide, by simp, by simp, ?_, by simp, by simp, by simp⟩
+  intro _
+  refine ⟨rfl, by decide +kernel, ?_, ?_⟩ <;> decide +kernel
+
 end TonVerif.Properties.C02
